@@ -269,6 +269,41 @@ pub fn debug_fmt<T, N: ArrayLength, const R: usize>() {
     kani_cover!(s1.len > 19 || n == f + b);
 }
 
+/// `clone()` clones the ORIGINAL's remaining elements: `T::clone` is called on element i of the original's remaining slice (an element type
+/// with interior state, or one that looks at its own address, can tell a bitwise duplicate from the original)
+static mut CLONED_FROM: [usize; 8] = [0; 8];
+static mut CLONES: usize = 0;
+pub struct AddrRec(pub u8);
+impl Clone for AddrRec {
+    fn clone(&self) -> AddrRec {
+        unsafe { if CLONES < 8 { CLONED_FROM[CLONES] = self as *const AddrRec as usize; } CLONES += 1; }
+        AddrRec(self.0)
+    }
+}
+pub fn clone_sees_original<T, N: ArrayLength, const R: usize>() {
+    let n = N::USIZE;
+    let mut it = GenericArray::<AddrRec, N>::generate(|i| AddrRec(i as u8)).into_iter();
+    let f = any_upto(n);
+    let b = any_upto(n);
+    assume(f + b <= n);
+    let mut k = 0;
+    while k < f { core::mem::forget(it.next()); k += 1; }
+    k = 0;
+    while k < b { core::mem::forget(it.next_back()); k += 1; }
+    let len = n - f - b;
+    unsafe { CLONES = 0 };
+    let c = it.clone();
+    assert!(unsafe { CLONES } == len, "clone() did not call T::clone once per remaining element");
+    assert!(c.len() == len && it.len() == len);
+    if len > 0 {
+        let i = any_upto(len - 1);
+        let want = &it.as_slice()[i] as *const AddrRec as usize;
+        assert!(unsafe { CLONED_FROM[i] } == want, "the i-th T::clone call was not made on the original's i-th remaining element");
+        assert!(c.as_slice()[i].0 as usize == f + i);
+    }
+    kani_cover!(len == n || n == 0);
+}
+
 /// zero-sized elements: the queue is its *length* only; every method must still consume / visit exactly as many items as a queue would
 pub fn zst_queue<T, N: ArrayLength, const R: usize>() {
     let n = N::USIZE;
@@ -300,6 +335,14 @@ pub fn zst_queue<T, N: ArrayLength, const R: usize>() {
 }
 
 pub mod q {
+    pub mod clone_sees_original {
+        use super::super::clone_sees_original;
+        use crate::common::*;
+        lattice! { clone_sees_original;
+            n1: <(), U1, 0> unwind 4;
+            n3: <(), U3, 0> unwind 6;
+        }
+    }
     pub mod zst_queue {
         use super::super::zst_queue;
         use crate::common::*;
